@@ -15,7 +15,7 @@ RULE = ('HIST histories with boot files of varied size/content (isolinux-signed,
         'namespace, edits before/after, rm_eltorito, restarts; every written image is read by isosim/dec_boot.py; non-trivial: '
         '>= 3 accepted edits, >= 1 write and an El Torito catalog decoded at least once; distinct = distinct model shape fingerprints')
 BUDGET = {'quick': 40, 'thorough': 900}
-PROBES = ['catalog_decoded', 'sections_ge_2', 'hdemul', 'floppy', 'boot_info_table_checked', 'hidden_boot_file', 'rm_eltorito_checked',
+PROBES = ['catalog_read_before_write', 'catalog_decoded', 'sections_ge_2', 'hdemul', 'floppy', 'boot_info_table_checked', 'hidden_boot_file', 'rm_eltorito_checked',
           'efi_section', 'catalog_name_joliet', 'catalog_name_udf']
 ASSUMPTIONS = ['isosim/dec_boot.py implements El Torito 1.0 as summarised in DESIGN.md Appendix A']
 
@@ -190,8 +190,44 @@ def check_image(ctx, data):
 class C11(H.Oracle):
     prop = PROP
 
+    def before_write(self, ctx):
+        # the boot catalog is a file of the image too: read through one of its names while the edits are still
+        # pending, it must already show what mastering is about to write
+        import io
+        self._cat_live = None
+        m = ctx.model
+        if not m.eltorito:
+            return
+        for ns in ('iso', 'joliet', 'udf'):
+            if ns not in m.roots:
+                continue
+            for p, n in m.iter_ns(ns):
+                if n.kind == 'file' and n.blob == 'cat':
+                    out = io.BytesIO()
+                    try:
+                        ctx.d.iso.get_file_from_iso_fp(out, **{{'iso': 'iso_path', 'joliet': 'joliet_path', 'udf': 'udf_path'}[ns]: p})
+                    except Exception as e:   # noqa
+                        ctx.violate(('catalog-read-before-write', 'raised', type(e).__name__, ns), repr(e), fatal=False)
+                        return
+                    self._cat_live = (ns, p, out.getvalue())
+                    ctx.probes['catalog_read_before_write'] += 1
+                    return
+
     def on_write(self, ctx, disk, wf):
-        check_image(ctx, bytes(disk.data))
+        data = bytes(disk.data)
+        live = getattr(self, '_cat_live', None)
+        if live is not None:
+            from .. import dec_iso, dec_boot
+            img = dec_iso.decode(data, want_trees=False)
+            et = dec_boot.ElTorito(data).decode([(v.sector, v.raw) for v in img.boots])
+            if et.present and et.catalog_lba:
+                on_disc = data[et.catalog_lba * 2048:(et.catalog_lba + 1) * 2048]
+                if live[2] != on_disc:
+                    i = next((k for k in range(min(len(live[2]), len(on_disc))) if live[2][k] != on_disc[k]), min(len(live[2]), len(on_disc)))
+                    ctx.violate(('catalog-read-before-write', 'differs-from-mastered', 'entry-field' if i >= 32 else 'validation-entry', live[0]),
+                                'catalog read through %s %r before write_fp differs from the mastered catalog at byte %d: %s vs %s' % (
+                                    live[0], live[1], i, live[2][i:i + 8].hex(), on_disc[i:i + 8].hex()), fatal=False)
+        check_image(ctx, data)
 
 
 def generate(seed, tier='quick'):
